@@ -408,7 +408,19 @@ static inline void OpAddMulti(Ctx & c, Message & m, Field & f, uint32 k)   // fi
 }
 static inline void OpFindCopy(Ctx & c, Message & m, Field & f)
 {
-   Value v; FindCopy(c, m, f.name.c_str(), f.cls, f.tc, c.R(f.n), v); c.budget--; if (c.t) c.t->items++;
+   const uint32 idx = c.R(f.n);
+   Value v; FindCopy(c, m, f.name.c_str(), f.cls, f.tc, idx, v); c.budget--; if (c.t) c.t->items++;
+   if (f.cls != TC_MESSAGE && f.cls != TC_TAG) {   // whatever Find* accessor was used, it must have given the item that FindData / FindFlat(ref) show
+      const void * p = NULL; uint32 len = 0; const uint32 fx = FixedSizeOf(f.cls);
+      if (!ItemBytes(m, f.name.c_str(), f.tc, idx, p, len)) BuildFail("reading back a found item", B_LOGIC_ERROR);
+      bool same;
+      if (f.cls == TC_POINTER) same = (len == sizeof(void *) && memcmp(p, &v.ptr, sizeof(void *)) == 0);
+      else if (f.cls == TC_BOOL) same = (len == 1 && ((*(const uint8 *)p) != 0) == (v.u.b[0] != 0));
+      else if (fx > 0) same = (len == fx && memcmp(p, v.u.b, fx) == 0);
+      else if (f.cls == TC_STRING) same = (len == v.bytes.size() + 1 && memcmp(p, v.bytes.c_str(), len) == 0);
+      else same = (len == v.bytes.size() && (len == 0 || memcmp(p, v.bytes.data(), len) == 0));
+      if (!same) RouteFail(c, std::string("findcopy|value-differs|") + TypeClassName(f.cls), vh::fmt("a Find* accessor gave another value than FindData for item %u of %u: ", idx, f.n) + vh::hex(p, len, 24) + " vs " + (fx > 0 ? vh::hex(v.u.b, fx) : vh::hex(v.bytes.data(), v.bytes.size(), 24)));
+   }
    const status_t r = Apply(c, m, f.name.c_str(), v, c.R(2) ? M_ADD : M_PREPEND, 0, false);
    if (r.IsError()) BuildFail(std::string("re-adding a found ") + TypeClassName(f.cls), r);
    f.n++; AfterGrowth(f); c.Op(OP_FINDCOPY); c.Log("fc"); CheckField(m, f, "find+copy");
